@@ -111,11 +111,28 @@ def evaluate(fam, cases, nproc=8):
             # the harness produced something the driver rejects, or a certificate failed:
             # a broken correspondence, never masked
             model = {"driver": flat}
-            impl = fam.impl(c)
+            try:
+                impl = fam.impl(c)
+            except Exception:
+                impl = {"harness_exc": traceback.format_exc()[-800:]}
             res.append((c, impl, model, Verdict(DIFFERS, "driver: " + flat[:300], {"kind": "driver"})))
             continue
-        model = fam.parse_model(c, out)
-        impl = fam.impl(c)
+        # an exception escaping the adapter (families catch the library's exceptions themselves)
+        # or the comparison is a broken correspondence for this one case, never a crash of the run
+        try:
+            model = fam.parse_model(c, out)
+        except Exception:
+            model = {"driver": flat}
+            res.append((c, None, model, Verdict(DIFFERS, "parse_model crashed: " + traceback.format_exc()[-800:],
+                                                {"kind": "harness-parse"})))
+            continue
+        try:
+            impl = fam.impl(c)
+        except Exception:
+            res.append((c, {"harness_exc": traceback.format_exc()[-800:]}, model,
+                        Verdict(DIFFERS, "adapter crashed: " + traceback.format_exc()[-800:],
+                                {"kind": "harness-impl"})))
+            continue
         try:
             v = fam.compare(c, impl, model)
         except Exception:
@@ -246,7 +263,11 @@ def run_check(fam, tier, seed, replay=None):
     known_hit = collections.OrderedDict()
     for (c, impl, model, v) in results:
         key = canon(c)
-        for k, val in fam.stats(c, impl, model).items():
+        try:
+            st = fam.stats(c, impl, model)
+        except Exception:
+            st = {"stats": "crashed"}       # statistics only: never a reason to abort the run
+        for k, val in st.items():
             hist["%s=%s" % (k, val)] += 1
         if key not in distinct:
             distinct.add(key)
